@@ -70,24 +70,21 @@ Proof.
   destruct (nneg n0); reflexivity.
 Qed.
 
-(* a range bound must also be encodable as a key *)
-Definition bnd_ok (nz : bool) (v : cv) : Prop := kc_ok nz v /\ cv_too_long v = false.
-
 (* ---------- ranges ---------- *)
 Section OneRow.
 Variable nz : bool.
 Variable val : bytes -> cv.          (* the column values of one row *)
 
 Definition semi_ok (P : cv -> Prop) (s : option semi) : Prop :=
-  match s with None => True | Some (b, _) => P b /\ bnd_ok nz b end.
+  match s with None => True | Some (b, _) => P b /\ kc_ok nz b end.
 Arguments semi_ok : simpl never.
 Definition in_rng (v : cv) (r : range) : Prop :=
   semi_ok (fun lo => cge (cv_cmp v lo)) (r_lo r) /\ semi_ok (fun hi => cle (cv_cmp v hi)) (r_hi r).
 
 Lemma cmp_range_sound v c o r :
-  sat (cv_cmp v c) o = true -> bnd_ok nz c -> cmp_range o c = Some r -> in_rng v r.
+  sat (cv_cmp v c) o = true -> kc_ok nz c -> cmp_range o c = Some r -> in_rng v r.
 Proof.
-  intros Hs [Hk1 Hk2] Hr. unfold cge, cle.
+  intros Hs Hk Hr. unfold cge, cle.
   destruct o; simpl in Hr; inversion Hr; subst; clear Hr; unfold in_rng, semi_ok; simpl;
     destruct (cv_cmp v c) eqn:E; simpl in Hs; try discriminate; repeat split; auto; try congruence;
     unfold cge, cle; congruence.
@@ -98,7 +95,7 @@ Proof. unfold max_semi; simpl. destruct (cv_cmp (fst a) (fst b)); auto. Qed.
 Lemma min_semi_cases a b : fst (min_semi a b) = fst a \/ fst (min_semi a b) = fst b.
 Proof. unfold min_semi; simpl. destruct (cv_cmp (fst a) (fst b)); auto. Qed.
 
-Lemma semi_ok_some P a : semi_ok P (Some a) <-> (P (fst a) /\ bnd_ok nz (fst a)).
+Lemma semi_ok_some P a : semi_ok P (Some a) <-> (P (fst a) /\ kc_ok nz (fst a)).
 Proof. destruct a; unfold semi_ok; simpl; tauto. Qed.
 
 Lemma refine_sound v r n : in_rng v r -> in_rng v n -> in_rng v (refine r n).
@@ -201,7 +198,7 @@ Lemma group_ranges_fold g : group_ranges g = fold_left group_step g [].
 Proof. reflexivity. Qed.
 
 Lemma group_step_sound m c :
-  rmap_sound m -> cmp_holds c -> bnd_ok nz (cc_val c) -> rmap_sound (group_step m c).
+  rmap_sound m -> cmp_holds c -> kc_ok nz (cc_val c) -> rmap_sound (group_step m c).
 Proof.
   intros Hm Hc Hk. unfold group_step.
   destruct (cmp_range (cc_op c) (cc_val c)) as [nr|] eqn:E; auto.
@@ -212,7 +209,7 @@ Proof.
 Qed.
 
 Lemma group_fold_sound g m :
-  rmap_sound m -> (forall c, In c g -> cmp_holds c /\ bnd_ok nz (cc_val c)) ->
+  rmap_sound m -> (forall c, In c g -> cmp_holds c /\ kc_ok nz (cc_val c)) ->
   rmap_sound (fold_left group_step g m).
 Proof.
   revert m; induction g as [|c g IH]; simpl; intros m Hm Hg; auto.
@@ -222,7 +219,7 @@ Proof.
 Qed.
 
 (* kc-ness alone (no row needed): every bound of a group's ranges is a constant of the group *)
-Lemma group_step_kc m c : rmap_kc m -> bnd_ok nz (cc_val c) -> rmap_kc (group_step m c).
+Lemma group_step_kc m c : rmap_kc m -> kc_ok nz (cc_val c) -> rmap_kc (group_step m c).
 Proof.
   intros Hm Hk. unfold group_step.
   destruct (cmp_range (cc_op c) (cc_val c)) as [nr|] eqn:E; auto.
@@ -240,7 +237,7 @@ Proof.
     destruct (min_semi_cases a b) as [E'|E']; rewrite E'; tauto.
 Qed.
 Lemma group_fold_kc g m :
-  rmap_kc m -> (forall c, In c g -> bnd_ok nz (cc_val c)) -> rmap_kc (fold_left group_step g m).
+  rmap_kc m -> (forall c, In c g -> kc_ok nz (cc_val c)) -> rmap_kc (fold_left group_step g m).
 Proof.
   revert m; induction g as [|c g IH]; simpl; intros m Hm Hg; auto.
   apply IH; auto. apply group_step_kc; auto.
@@ -280,16 +277,16 @@ Qed.
 
 Definition group_holds (g : list ccmp) : Prop := forall c, In c g -> cmp_holds c.
 Definition consts_kc (gs : list (list ccmp)) : Prop :=
-  forall g, In g gs -> forall c, In c g -> bnd_ok nz (cc_val c).
+  forall g, In g gs -> forall c, In c g -> kc_ok nz (cc_val c).
 
 Lemma group_ranges_sound g :
-  group_holds g -> (forall c, In c g -> bnd_ok nz (cc_val c)) -> rmap_sound (group_ranges g).
+  group_holds g -> (forall c, In c g -> kc_ok nz (cc_val c)) -> rmap_sound (group_ranges g).
 Proof.
   intros H K. rewrite group_ranges_fold. apply group_fold_sound.
   - intros k rg [].
   - intros c Hc; split; auto.
 Qed.
-Lemma group_ranges_kc g : (forall c, In c g -> bnd_ok nz (cc_val c)) -> rmap_kc (group_ranges g).
+Lemma group_ranges_kc g : (forall c, In c g -> kc_ok nz (cc_val c)) -> rmap_kc (group_ranges g).
 Proof.
   intros K. rewrite group_ranges_fold. apply group_fold_kc; auto. intros k rg [].
 Qed.
@@ -301,7 +298,7 @@ Lemma where_fold_sound gs acc :
 Proof.
   revert acc; induction gs as [|g gs IH]; simpl; intros acc K Kacc H.
   - destruct H as [H|[g [[] _]]]; auto.
-  - assert (Kg : forall c, In c g -> bnd_ok nz (cc_val c)) by (intros c Hc; apply (K g); simpl; auto).
+  - assert (Kg : forall c, In c g -> kc_ok nz (cc_val c)) by (intros c Hc; apply (K g); simpl; auto).
     assert (Kgs : consts_kc gs) by (intros g' Hg'; apply K; simpl; auto).
     apply IH; auto.
     + apply or_ranges_kc; auto. apply group_ranges_kc; auto.
@@ -315,7 +312,7 @@ Lemma where_ranges_sound gs :
   consts_kc gs -> (exists g, In g gs /\ group_holds g) -> rmap_sound (where_ranges gs).
 Proof.
   intros K [g0 [Hin Hg]]. unfold where_ranges. destruct gs as [|g gs]; [destruct Hin|].
-  assert (Kg : forall c, In c g -> bnd_ok nz (cc_val c)) by (intros c Hc; apply (K g); simpl; auto).
+  assert (Kg : forall c, In c g -> kc_ok nz (cc_val c)) by (intros c Hc; apply (K g); simpl; auto).
   apply where_fold_sound.
   - intros g' Hg'; apply K; simpl; auto.
   - apply group_ranges_kc; auto.
@@ -385,7 +382,7 @@ Proof.
         subst lr'. simpl in KB. rewrite KB in Lr. simpl in Lr. subst los. unfold cge; congruence.
       * destruct (r_lo r) as [[lo i]|] eqn:RL; simpl.
         -- unfold semi_ok in Lo. destruct Lo as [Lo Klo].
-           rewrite (kcmp_cmp nz (val c) lo Hkc (proj1 Klo)).
+           rewrite (kcmp_cmp nz (val c) lo Hkc Klo).
            unfold cge in *. destruct (cv_cmp (val c) lo); congruence.
         -- subst lr'. simpl in KB. rewrite KB in Lr. simpl in Lr. subst los. unfold cge; congruence.
     + destruct hr; simpl.
@@ -395,7 +392,7 @@ Proof.
         subst his. unfold cle; congruence.
       * destruct (r_hi r) as [[hi i]|] eqn:RH; simpl.
         -- unfold semi_ok in Hi. destruct Hi as [Hi Khi].
-           rewrite (kcmp_cmp nz (val c) hi Hkc (proj1 Khi)).
+           rewrite (kcmp_cmp nz (val c) hi Hkc Khi).
            unfold cle in *. destruct (cv_cmp (val c) hi); congruence.
         -- subst hr'. simpl in KB.
            assert (his = []).
@@ -406,7 +403,7 @@ Qed.
 (* every value placed in the key bounds is a bound of some range of the map *)
 Lemma key_bounds_vals rm cols lr hr v :
   rmap_kc rm ->
-  In v (fst (key_bounds cols rm lr hr) ++ snd (key_bounds cols rm lr hr)) -> bnd_ok nz v.
+  In v (fst (key_bounds cols rm lr hr) ++ snd (key_bounds cols rm lr hr)) -> kc_ok nz v.
 Proof.
   intros Hk. revert lr hr. induction cols as [|c cols IH]; intros lr hr; simpl.
   - intros [].
